@@ -111,6 +111,7 @@ struct HV {
 };
 
 struct Run {
+  int hop[16] = {};  // input value seen by a void callback, for the no-argument callback behind it
   int invoked[16];
   const char* ran[16];
   int n_invoked = 0;
@@ -134,14 +135,14 @@ Run* g_run = nullptr;
 
 enum class Beh {
   val, thr, res_val, res_err, res_exc, fut_ready, fut_pending, fut_err, shared_ready, shared_pending, task_make, task_sched,
-  task_contract, task_sched_then, shared_cached_exc, throw_re, task_sched_stopped
+  task_contract, task_sched_then, shared_cached_exc, throw_re, task_sched_stopped, void_hop, void_throw
 };
 
 Beh ParseBeh(const std::string& s) {
   static const char* names[] = {"val", "throw", "res_val", "res_err", "res_exc", "fut_ready", "fut_pending", "fut_err",
                                 "shared_ready", "shared_pending", "task_make", "task_sched", "task_contract",
-                                "task_sched_then", "shared_cached_exc", "throw_re", "task_sched_stopped"};
-  for (int i = 0; i != 17; ++i) {
+                                "task_sched_then", "shared_cached_exc", "throw_re", "task_sched_stopped", "void_hop", "void_throw"};
+  for (int i = 0; i != 19; ++i) {
     if (s == names[i]) {
       return static_cast<Beh>(i);
     }
@@ -150,8 +151,10 @@ Beh ParseBeh(const std::string& s) {
   std::exit(2);
 }
 
-int RetClass(Beh b) {  // 0 int, 1 Result, 2 Future, 3 SharedFuture, 4 Task
+int RetClass(Beh b) {  // 0 int, 1 Result, 2 Future, 3 SharedFuture, 4 Task, 5 void (+ a no-argument step behind it)
   switch (b) {
+    case Beh::void_hop:
+    case Beh::void_throw: return 5;
     case Beh::val:
     case Beh::thr:
     case Beh::throw_re: return 0;
@@ -170,7 +173,12 @@ int RetClass(Beh b) {  // 0 int, 1 Result, 2 Future, 3 SharedFuture, 4 Task
 
 template <int RC>
 auto Produce(Beh b, int n) {
-  if constexpr (RC == 0) {
+  if constexpr (RC == 5) {
+    if (b == Beh::void_throw) {
+      throw TE{5};
+    }
+    return;
+  } else if constexpr (RC == 0) {
     if (b == Beh::thr) {
       throw TE{1};
     }
@@ -254,6 +262,7 @@ struct Fn {
   template <char B = A, std::enable_if_t<B == 'V', int> = 0>
   Ret operator()(HV v) {
     g_run->Note(idx);
+    g_run->hop[idx & 15] = v.v;
     return Produce<RC>(beh, v.v);
   }
   template <char B = A, std::enable_if_t<B == 'E', int> = 0>
@@ -271,15 +280,34 @@ struct Fn {
   Ret operator()(const Result<HV>& r) {
     g_run->Note(idx);
     int n = r.State() == yaclib::ResultState::Value ? r.Value().v : 0;
+    g_run->hop[idx & 15] = n;
     return Produce<RC>(beh, n);
   }
   template <char B = A, std::enable_if_t<B == 'R', int> = 0>
   Ret operator()(Result<HV>&& r) {
     g_run->Note(idx);
     int n = r.State() == yaclib::ResultState::Value ? std::move(r).Value().v : 0;
+    g_run->hop[idx & 15] = n;
     return Produce<RC>(beh, n);
   }
 };
+
+// the no-argument callback behind a void step: back to the value type
+struct Second {
+  int idx;
+  Tracker t;
+  HV operator()() {
+    return HV{g_run->hop[idx & 15] + 13};
+  }
+};
+template <int RC, typename F>
+auto Hop(F&& f, int idx) {
+  if constexpr (RC == 5) {
+    return std::forward<F>(f).ThenInline(Second{idx, {}});
+  } else {
+    return std::forward<F>(f);
+  }
+}
 
 using Holder = std::variant<Future<HV>, FutureOn<HV>>;
 
@@ -292,17 +320,17 @@ void AttachEager(Holder& h, const std::string& att, int idx, Beh beh) {
   Fn<A, RC> fn{idx, beh, {}};
   if (att == "inline") {
     if (auto* f = std::get_if<Future<HV>>(&h)) {
-      h = Holder{std::in_place_index<0>, std::move(*f).ThenInline(std::move(fn))};
+      h = Holder{std::in_place_index<0>, Hop<RC>(std::move(*f).ThenInline(std::move(fn)), idx)};
     } else {
-      h = Holder{std::in_place_index<1>, std::move(std::get<1>(h)).ThenInline(std::move(fn))};
+      h = Holder{std::in_place_index<1>, Hop<RC>(std::move(std::get<1>(h)).ThenInline(std::move(fn)), idx)};
     }
   } else if (att == "inh") {
-    h = Holder{std::in_place_index<1>, std::move(std::get<1>(h)).Then(std::move(fn))};
+    h = Holder{std::in_place_index<1>, Hop<RC>(std::move(std::get<1>(h)).Then(std::move(fn)), idx)};
   } else {
     if (auto* f = std::get_if<Future<HV>>(&h)) {
-      h = Holder{std::in_place_index<1>, std::move(*f).Then(Exec(att), std::move(fn))};
+      h = Holder{std::in_place_index<1>, Hop<RC>(std::move(*f).Then(Exec(att), std::move(fn)), idx)};
     } else {
-      h = Holder{std::in_place_index<1>, std::move(std::get<1>(h)).Then(Exec(att), std::move(fn))};
+      h = Holder{std::in_place_index<1>, Hop<RC>(std::move(std::get<1>(h)).Then(Exec(att), std::move(fn)), idx)};
     }
   }
 }
@@ -312,9 +340,9 @@ template <char A, int RC>
 void AttachShared(const yaclib::SharedFuture<HV>& sf, Holder& h, const std::string& att, int idx, Beh beh) {
   Fn<A, RC> fn{idx, beh, {}};
   if (att == "inline") {
-    h = Holder{std::in_place_index<0>, sf.ThenInline(std::move(fn))};
+    h = Holder{std::in_place_index<0>, Hop<RC>(sf.ThenInline(std::move(fn)), idx)};
   } else {
-    h = Holder{std::in_place_index<1>, sf.Then(Exec(att), std::move(fn))};
+    h = Holder{std::in_place_index<1>, Hop<RC>(sf.Then(Exec(att), std::move(fn)), idx)};
   }
 }
 
@@ -322,11 +350,11 @@ template <char A, int RC>
 void AttachLazy(Task<HV>& t, const std::string& att, int idx, Beh beh) {
   Fn<A, RC> fn{idx, beh, {}};
   if (att == "inline") {
-    t = std::move(t).ThenInline(std::move(fn));
+    t = Hop<RC>(std::move(t).ThenInline(std::move(fn)), idx);
   } else if (att == "inh") {
-    t = std::move(t).Then(std::move(fn));
+    t = Hop<RC>(std::move(t).Then(std::move(fn)), idx);
   } else {
-    t = std::move(t).Then(Exec(att), std::move(fn));
+    t = Hop<RC>(std::move(t).Then(Exec(att), std::move(fn)), idx);
   }
 }
 
@@ -340,6 +368,7 @@ void Dispatch(char a, int rc, F&& f) {
   VRT_CASE('E', 0) VRT_CASE('E', 1) VRT_CASE('E', 2) VRT_CASE('E', 3) VRT_CASE('E', 4)
   VRT_CASE('X', 0) VRT_CASE('X', 1) VRT_CASE('X', 2) VRT_CASE('X', 3) VRT_CASE('X', 4)
   VRT_CASE('R', 0) VRT_CASE('R', 1) VRT_CASE('R', 2) VRT_CASE('R', 3) VRT_CASE('R', 4)
+  VRT_CASE('V', 5) VRT_CASE('R', 5)
 #undef VRT_CASE
   std::fprintf(stderr, "bad step %c %d\n", a, rc);
   std::exit(2);
